@@ -6,7 +6,7 @@ from .common import Ctx, Obligation, tail
 def run(args):
     ctx = Ctx("C08", args.tier, args.seed)
     ctx.assumptions += [
-        "the theorem is at token level over the expression ladder (atoms opaque); statement/declaration printing and the text->token step are covered by the oracle, not by a theorem",
+        "the ladder theorem is at token level (atoms opaque); literal atoms have their own model and theorems (string_literal_roundtrip, bytes_literal_roundtrip: formatter escaping read back by the lexer); statement/declaration printing and the rest of the text->token step are covered by the oracle, not by a theorem",
         "documented normalisation applied before comparing ASTs: surrounding whitespace of docstrings (format_docstring trims it)",
     ]
     ctx.proof_stage("IncanModel.Props.C08")
@@ -18,13 +18,19 @@ def run(args):
         ctx.obligations.append(ob)
     else:
         cases, metas = ctx.run_harness("c08")
+        back = [c for c in cases if c[0].split(" ")[1] in ("bytesback", "strback")]
+        cases = [c for c in cases if c[0].split(" ")[1] not in ("bytesback", "strback")]
         model = ctx.run_driver([c[0] for c in cases])
         by_stream = {}
         for c, m in zip(cases, model):
             by_stream.setdefault(c[0].split(" ")[1], []).append((c, m))
         names = {"parse": "model parse(real tokens) = real parser's tree (incl. rejections)",
                  "fmt": "model fmt(real tree) = tokens of the real formatter's output",
-                 "rt": "model round trip = real round trip"}
+                 "rt": "model round trip = real round trip",
+                 "fmtbytes": "model fmtBytes = the text the real formatter writes for a bytes literal (every single byte + random byte strings)",
+                 "fmtstr": "model fmtStr = the text the real formatter writes for a string literal",
+                 "scanbytes": "model scanBytes = the real lexer on arbitrary bytes-literal texts (escapes, hex pairs, unknown escapes, non-ASCII, unterminated)",
+                 "scanstr": "model lexStr / scanStr = the real lexer on arbitrary string-literal texts"}
         for name, items in sorted(by_stream.items()):
             ctx.tie(names.get(name, name), [i[0] for i in items], [i[1] for i in items])
         ops = {}
@@ -39,6 +45,11 @@ def run(args):
                 for t in p[2].split(","):
                     if not t.startswith("a"):
                         ops[t] = ops.get(t, 0) + 1
+        for req, real in back:
+            p = req.split(" ")
+            ctx.nontrivial.add(req)
+            if real != p[2]:
+                failures.append({"request": req, "real": real, "expected": p[2], "why": "the literal the formatter wrote is read back as a different value"})
         files, fmetas = ctx.run_harness("fmt", name="fmt")
         n_ok = 0
         kinds = {}
@@ -62,5 +73,5 @@ def run(args):
                               "whole_file_ok": n_ok, "harness_meta": metas + fmetas, "oracle_failures": len(failures)}
     ctx.conclude_broken_obligations(failures)
     return ctx.finish(
-        rule="seeded random expressions over the whole ladder (20 binary ops, 3 prefix ops, ?, indexing, parens; depth ≤ 6) through the real lexer/parser/formatter; every repository .incn file + the construct corpus in /verif/corpus/fmt + random statement-embedded expressions through format_source with AST comparison; distinct = distinct tree / source",
+        rule="seeded random expressions over the whole ladder (20 binary ops, 3 prefix ops, ?, indexing, parens; depth ≤ 6) through the real lexer/parser/formatter; every repository .incn file + the construct corpus in /verif/corpus/fmt + random statement-embedded expressions through format_source with AST comparison; string and bytes literal values (every byte value, quotes, apostrophes, backslashes, control and non-ASCII characters) through the formatter and back through the lexer, and arbitrary literal texts through the lexer; distinct = distinct tree / source / value",
         extra_cov=getattr(ctx, "coverage_extra", None))
